@@ -14,6 +14,9 @@ CLAIMS = {
     'C03.terminates': 'no call needs more than K scheduler passes (K above the '
                       'bound a progressing scheduler can need)',
     'C03.emit_once': 'history rows carry strictly increasing times',
+    'C03.grid': 'with a precision p and timesteps on the 10^-p grid every '
+                'clock value is on that grid or is the start / end of a '
+                'requested call (concrete times)',
     'C03.runs': 'the scheduler raises no exception of its own',
 }
 OPTIONAL_CLAIMS = ('C03.terminates', 'C03.runs')
@@ -214,6 +217,20 @@ def _claims(ctx, cfg, run, sig):
     times = [r['time'] for r in run.sink['rows']]
     ctx.claim('C03.emit_once', AND([b > a for a, b in zip(times, times[1:])]),
               sig=sig)
+    if cfg.get('precision') is not None and cfg.get('ts_grid'):
+        # concrete times: the 10^-p grid clause
+        p10 = 10 ** cfg['precision']
+        ends = set()
+        for c in run.calls:
+            ends.add(c['start'])
+            ends.add(c['end'])
+        off = [g for _, g in run.clock
+               if g not in ends and abs(g * p10 - round(g * p10)) > 1e-12]
+        off += [t for t in times
+                if t not in ends and abs(t * p10 - round(t * p10)) > 1e-12]
+        ctx.claim('C03.grid', not off, sig='grid',
+                  info=lambda: dict(off_grid=off, calls=[
+                      (c['start'], c['end']) for c in run.calls]))
     for l, g in run.clock:
         ctx.observe(l, g)
     # reachability witnesses
